@@ -1,5 +1,5 @@
 (* C16 — concurrent requests are race-free and do not undo or double-spend. *)
-From KM Require Import Base.Bytes Model.Conc Proofs.Conc Proofs.ConcExplore.
+From KM Require Import Base.Bytes Model.Conc Proofs.Conc Proofs.ConcExplore Proofs.ConcAnswer Proofs.ConcProgress.
 Open Scope N_scope.
 
 (* Lock discipline gives freedom from data races on the shared maps: for ANY pool of programs in
@@ -101,3 +101,71 @@ Proof. exact u2f_double_spend. Qed.
 
 Theorem c16_ssegments_are_runs : forall w sched, exists s, run_sseg w sched = run w s.
 Proof. exact ssegments_are_runs. Qed.
+
+(* ---- the answer ends the request ------------------------------------------------------------------
+   A request has been ANSWERED when no Respond is left in its program.  For any pool of programs in which
+   every storage write (Save, Del) still has the Respond ahead of it (`wa_ok`), any initial state and ANY
+   schedule: the next action of an answered request — at whatever later moment it is scheduled — changes
+   neither the stored profiles nor the log of saves.  So a request that is started after that answer can
+   never be undone by the answered one.  (The harness holds storage operations of the real handlers for
+   longer than every time-out of the storage layer and watches for writes after the answer:
+   C16:write-after-answer:<handler>.) *)
+Theorem c16_no_write_after_answer : forall d s progs sched i t,
+  Forall (fun p => wa_ok p = true) progs ->
+  let w := run (init_world d s progs) sched in
+  nth_error (threads w) i = Some t -> has_respond (prog t) = false ->
+  store (step w i) = store w /\ saved (step w i) = saved w.
+Proof. exact no_write_after_answer. Qed.
+
+(* every modelled request handler has that shape, and its list of actions ends with the Respond *)
+Theorem c16_respond_is_last : forall h, wa_ok (handler h) = true /\ ends_in_respond (handler h) = true.
+Proof. exact respond_is_last. Qed.
+
+(* FALSE for a handler that hands its profile write to a goroutine and answers when a time-out fires
+   first (NOT the code): request 0 is answered 500; THEN a disable of the same token runs from start to its
+   acknowledgement; THEN the abandoned write lands: the token is enabled again — no sequential order gives that *)
+Theorem c16_abandoned_write_refuted :
+  wa_ok (tok_handler_abandoned 1 1 (fun p => p)) = false /\
+  let w1 := run abandoned_w0 [0; 0; 0]%nat in
+  let w2 := run w1 [1; 1; 1; 1]%nat in
+  let w3 := run w2 [0]%nat in
+  (resp_at w1 0 = Some 500 /\ resp_at w1 1 = None /\
+   match nth_error (threads w1) 0 with Some t => has_respond (prog t) | None => true end = false) /\
+  (resp_at w2 1 = Some 200 /\
+   get 1 (store w2) = Some {| toks := [{| t_idx := 1; t_enabled := false; t_name := 11 |}; tk 2 12]; botp := None; last_totp := 0 |}) /\
+  get 1 (store w3) = Some {| toks := [{| t_idx := 1; t_enabled := true; t_name := 21 |}; tk 2 12]; botp := None; last_totp := 0 |} /\
+  serializable_outcome [1; 2] abandoned_w0 w3 = false.
+Proof. exact abandoned_write. Qed.
+
+(* ---- the federated login among the requests ---------------------------------------------------------
+   login start, provider callback and one pass of the periodic sweep are disciplined programs (so
+   c16_lock_discipline applies to any pool of them, under any schedule) ... *)
+Theorem c16_oauth_pool_disciplined : forall k st k' st' ks,
+  Forall (fun p => disciplined p = true)
+         [handler (HOauthBegin k st); handler (HOauthCallback k' st'); sweep (map (fun x => (M_pendingOauth2, x)) ks)].
+Proof. exact oauth_pool_disciplined. Qed.
+
+(* ... and what a critical section on a private COPY of the mutex (method with a value receiver) does: not
+   disciplined; it races with a login start on the shared map; and a copy taken while the mutex was held
+   is born locked — the request never gets any further, however often it is scheduled *)
+Theorem c16_lock_copy_refuted :
+  (forall k st, disciplined (oauth_callback_copied k st) = false) /\
+  (exists sched, data_race (run copy_w0 sched)) /\
+  (forall n, run copy_born_locked (repeat 0%nat n) = copy_born_locked).
+Proof. exact lock_copy. Qed.
+
+(* ---- nobody waits for ever --------------------------------------------------------------------------
+   Any pool of disciplined programs, any initial state, ANY schedule: whenever a request stands at `Lock l`
+   and finds the mutex taken, the owner is ANOTHER request of the pool that is inside its critical section:
+   it holds l, its next action is not a Lock (it waits for nobody: no nesting), and the Unlock l is still
+   ahead of it.  (c16_lock_copy_refuted shows the opposite for a lock that is a private copy; the harness
+   holds each mutex of the real state as "the other request" and expects every request to be served after
+   the release: C16:hang:<handler>.) *)
+Theorem c16_blocked_only_by_running_request : forall d s progs sched i t l r,
+  Forall (fun p => disciplined p = true) progs ->
+  let w := run (init_world d s progs) sched in
+  nth_error (threads w) i = Some t -> prog t = Lock l :: r ->
+  forall j, owner_of l (owner w) = Some j ->
+  j <> i /\ exists tj, nth_error (threads w) j = Some tj /\ held tj = Some l /\
+    In (Unlock l) (prog tj) /\ (forall l' r', prog tj <> Lock l' :: r').
+Proof. exact blocked_by_runnable. Qed.
